@@ -47,6 +47,7 @@ func hook(point string, id uint32) {
 const base = "rtsp://h.example"
 
 var grace = 12 * time.Millisecond
+var parkBudget = sl.Watchdog
 
 type pktStep struct {
 	k       int // channel type 0..3
@@ -190,7 +191,8 @@ func runTear(fx *sl.Fixture, t tearCase) (res tearResult) {
 		}
 		select {
 		case <-parkedCh:
-		case <-time.After(sl.Watchdog):
+		case <-time.After(parkBudget):
+			parkBudget = 200 * time.Millisecond // reported below; later cases need not wait the full watchdog again
 			res.err = "media goroutine never reached the schedule point"
 			return
 		}
